@@ -509,6 +509,7 @@ type Contract struct {
 	CloInv    map[int][]*Clause // closure ordinal → invariants on captured cells
 	AssumeRet []*Clause
 	YieldReq  []*SinkRule // yield-requires(a, b) E
+	Private   []string    // parameters whose pointee is not reachable by foreign code
 }
 
 type SpecFunc struct {
@@ -550,6 +551,7 @@ type ContractSet struct {
 	PkgMode map[string]PkgMode
 	ObjInvs map[string][]*Clause // pkgpath.TypeName → invariants over `self`
 	SeqItems []*SinkRule        // seq-items <Method>(params) yields(a, b) ensures E
+	IfaceEns []*SinkRule        // iface-ensures <Iface>.<Method>(params) E   (assumed interface contract)
 }
 
 type PkgMode struct {
@@ -565,7 +567,7 @@ var clauseKeywords = map[string]bool{
 	"func": true, "requires": true, "ensures": true, "loop": true, "modifies": true, "trusted": true,
 	"pure": true, "inline": true, "noinline": true, "strings": true, "bytes": true, "panics": true, "bind": true, "sink": true,
 	"axiom": true, "log": true, "atomic": true, "guarded_by": true, "immutable": true, "must-close": true,
-	"opaque": true, "unroll": true, "yield-requires": true, "invariant": true, "seq-items": true, "producer": true, "closure": true, "package": true, "assume-return": true,
+	"opaque": true, "unroll": true, "yield-requires": true, "invariant": true, "seq-items": true, "private": true, "iface-ensures": true, "producer": true, "closure": true, "package": true, "assume-return": true,
 }
 
 // LoadContractFile parses one contracts_verif.go file (or any file with //@ lines).
@@ -720,6 +722,10 @@ func (cs *ContractSet) LoadContractFile(path, pkgPath string) error {
 			}
 			sr.Req = append(sr.Req, c)
 			cur.YieldReq = append(cur.YieldReq, sr)
+		case "private":
+			for _, pn := range strings.Split(rest, ",") {
+				cur.Private = append(cur.Private, strings.TrimSpace(pn))
+			}
 		case "unroll":
 			parts := strings.Fields(rest)
 			if len(parts) == 2 {
@@ -767,6 +773,25 @@ func (cs *ContractSet) LoadContractFile(path, pkgPath string) error {
 			} else if cur != nil {
 				cur.Pure = true
 			}
+		case "iface-ensures":
+			// iface-ensures BlobWriter.ID() result != ""
+			m := regexp.MustCompile(`^([\w.]+)\.(\w+)\(([^)]*)\)\s+(.*)$`).FindStringSubmatch(rest)
+			if m == nil {
+				return fmt.Errorf("%s:%d: bad iface-ensures", path, it.line)
+			}
+			sr := &SinkRule{Owner: m[1], Method: m[2], Pkg: pkgPath}
+			for _, pn := range strings.Split(m[3], ",") {
+				if pn = strings.TrimSpace(pn); pn != "" {
+					sr.Params = append(sr.Params, pn)
+				}
+			}
+			c, err := mkClause("ensures", m[4])
+			if err != nil {
+				return err
+			}
+			sr.Ens = append(sr.Ens, c)
+			cs.IfaceEns = append(cs.IfaceEns, sr)
+			cs.Scan = append(cs.Scan, fmt.Sprintf("%s:%d: assumed interface contract: %s", path, it.line, t))
 		case "seq-items":
 			// seq-items Method(p1, p2) yields(a, b) ensures E
 			// assumed interface contract: the items a Seq returned by
